@@ -23,7 +23,7 @@ func wireLeaf(v *sym.V, name string, nameLen int) *wire.Enc {
 		Message: v.Str(name+".msg", sym.REGNN, 1, 2),
 		Details: errorspb.EncodedErrorDetails{
 			OriginalTypeName: "orig/" + name,
-			ErrorTypeMark:    errorspb.ErrorTypeMark{FamilyName: v.Str(name+".fam", sym.LOWER, nameLen, nameLen), Extension: v.Str(name+".ext", sym.LOWER, 0, 1)},
+			ErrorTypeMark:    errorspb.ErrorTypeMark{FamilyName: v.Str(name+".fam", sym.LOWER, nameLen, nameLen), Extension: v.Str(name+".ext", sym.LOWER, 0, v.Param("extlen", 2))},
 		}}}}
 }
 
@@ -110,7 +110,13 @@ func H_C08_Marks(v *sym.V) {
 // an independently built leaf with independent symbolic strings.
 func pickRef(v *sym.V, g *gen.G, e error) error {
 	np := v.Param("pool", 3)
-	switch v.Choice("ref", 5) {
+	switch v.Choice("ref", 6) {
+	case 5:
+		// the reference of a Mark layer inside e, if there is one
+		if markRefOf != nil {
+			return markRefOf
+		}
+		return nil
 	case 0:
 		return nil
 	case 1:
@@ -123,11 +129,15 @@ func pickRef(v *sym.V, g *gen.G, e error) error {
 	return g.Leaf("r", []gen.Kind{gen.LNew, gen.LStd, gen.LUserNonComparable, gen.LUserIs}).Err
 }
 
+// markRefOf is set by the harnesses before pickRef (the generator records it).
+var markRefOf error
+
 // H_C08_Laws: totality, reflexivity, IsAny = disjunction, nil handling, Mark.
 func H_C08_Laws(v *sym.V) {
 	g := newG(v, sym.REGNN)
 	b := build(v, g, "e")
 	e := b.Err
+	markRefOf = b.MarkRef
 	r := pickRef(v, g, e)
 	r2 := sentinelPool[v.Choice("pool2", 2)]
 	is := errors.Is(e, r)
@@ -148,6 +158,7 @@ func H_C08_Monotone(v *sym.V) {
 	if v.Choice("deep", 2) == 1 {
 		b = g.Wrap("e1", b, []gen.Kind{gen.WWrap, gen.WMark, gen.WUserPrefix, gen.WDomain})
 	}
+	markRefOf = b.MarkRef
 	r := pickRef(v, g, b.Err)
 	is := errors.Is(b.Err, r)
 	w := g.Wrap("w", b, gen.Cat(gen.MsgWrappers, gen.AnnotWrappers, gen.ForeignWrappers))
